@@ -106,6 +106,18 @@ theorem concurrent_handle_reads_progress {blob : Bytes} {ip0 : IdxPos} {fetch : 
   MountHandle.progress
     (MountHandle.run_sinv hs sched _ (MountHandle.init_sinv (fetch := fetch) rq calls hi)) r q st hq hst hnd
 
+/-- every run is finite: of the entries of any schedule at most `4·k` are moves (a move advances one
+    of the `k` programs of four operations by one; the other entries name a request that is blocked
+    in `Lock` or has returned).  With `concurrent_handle_reads_progress`: a run in which some request
+    that can move does move until none can ends with every request returned. -/
+theorem concurrent_handle_reads_bounded {blob : Bytes} {ip0 : IdxPos} {fetch : Fetch}
+    (hs : Setup blob ip0 fetch) (hi : Inv blob ip0) (rq : List MountHandle.Req) (calls : Nat)
+    (sched : List Nat) :
+    MountHandle.countMoves MountHandle.lockedShape fetch rq sched
+      (MountHandle.St.init ip0 calls rq.length) ≤ 4 * rq.length :=
+  Nat.le_trans (Nat.le_add_right _ _)
+    (MountHandle.moves_bounded hs sched _ (MountHandle.init_sinv (fetch := fetch) rq calls hi))
+
 /-- **the seeded regression, decided**: with the critical section split in two (`lock; Seek; unlock;
     lock; Read; unlock`) two requests on the two-chunk blob of `hypotheses_satisfiable` and the
     schedule "request 0 seeks, request 1 seeks, request 0 reads" make request 0 return, with success,
